@@ -319,7 +319,7 @@ MV_THEOREMS = {'conf_consts_eq', 'conf_up_eq', 'conf_homo_eq', 'conf_down_eq', '
                'g3c_point_pair_end_points_eq', 'g3c_sphere_center_eq', 'cga_dilation_eq'}
 
 
-LOOP_THEOREMS = {'cre_eq', 'crs_eq', 'gmt_element_eq'}
+LOOP_THEOREMS = {'cre_eq', 'crs_eq', 'gmt_element_eq', 'construct_gmt_eq', 'construct_graded_mt_eq'}
 
 
 def _tie_a_one(script):
